@@ -121,6 +121,17 @@ theorem outputs_as_alone (tasks : List (P × B)) (hd : OutputsDisjoint conv task
   unfold alone
   rw [seq_tree_get_owner conv [tasks[i]] (by simp [OutputsDisjoint]) tasks[i] (by simp) o ho]
 
+/-- **Outputs depend only on the file itself** (its full path and bytes): in any two batches that contain the file —
+other files added, removed, damaged, same-named files in other sub-directories, other order, other worker count,
+other schedule — every output path of the file ends up with the same content. -/
+theorem outputs_depend_only_on_file (tasks tasks' : List (P × B))
+    (hd : OutputsDisjoint conv tasks) (hd' : OutputsDisjoint conv tasks')
+    (k k' : Nat) (σ σ' : List Ev) (hv : validSched k (nOutsOf conv tasks) σ = true)
+    (hv' : validSched k' (nOutsOf conv tasks') σ' = true) (t : P × B) (ht : t ∈ tasks) (ht' : t ∈ tasks')
+    (o : O) (ho : o ∈ akeys (conv t).2) :
+    aget (runSched conv σ tasks).tree o = aget (runSched conv σ' tasks').tree o := by
+  rw [outputs_as_alone conv tasks hd k σ hv t ht o ho, outputs_as_alone conv tasks' hd' k' σ' hv' t ht' o ho]
+
 /-- ... and the batch creates nothing else: a path present in the tree is an output path of one of the files -/
 theorem tree_only_outputs (tasks : List (P × B)) (σ : List Ev) (o : O)
     (h : o ∈ akeys (runSched conv σ tasks).tree) : ∃ t ∈ tasks, o ∈ akeys (conv t).2 := by
@@ -129,6 +140,20 @@ theorem tree_only_outputs (tasks : List (P × B)) (σ : List Ev) (o : O)
   have := (mem_akeys_iff _ o).mp h
   rw [tree_get_none conv tasks σ o hno] at this
   simp at this
+
+/-- **Nothing missing, nothing extra**: the set of paths in the final tree is exactly the union of the output paths of the
+files (each of which holds the stand-alone content by `outputs_as_alone`). -/
+theorem tree_keys_exact (tasks : List (P × B)) (hd : OutputsDisjoint conv tasks)
+    (k : Nat) (σ : List Ev) (hv : validSched k (nOutsOf conv tasks) σ = true) (o : O) :
+    o ∈ akeys (runSched conv σ tasks).tree ↔ ∃ t ∈ tasks, o ∈ akeys (conv t).2 := by
+  constructor
+  · exact tree_only_outputs conv tasks σ o
+  · rintro ⟨t, ht, ho⟩
+    rw [mem_akeys_iff, outputs_as_alone conv tasks hd k σ hv t ht o ho]
+    unfold alone
+    rw [seq_tree_get_owner conv [t] (by simp [OutputsDisjoint]) t (by simp) o ho]
+    unfold lastWrite
+    exact (mem_akeys_iff _ o).mp (by simpa [akeys] using ho)
 
 /-- Output-path disjointness follows from an injective naming rule: if every output path of a task is
 `nm (key t) i` for a naming function that is injective in the key, and the keys of the tasks are distinct. -/
@@ -263,5 +288,11 @@ theorem rp_stem_underscore_collision :
 /-- the LIS and BIT rules keep the input extension, so the F14 pair is kept apart -/
 example : lisOut "out/b.lis".toList 0 ≠ lisOut "out/b.LIS".toList 0 := by decide
 example : bitOut "out/b.bit".toList 0 = "out/b.bit_0000.las".toList := by decide
+
+/-- same-named files in different sub-directories are different tasks with different output directories -/
+example : walkPath "in".toList "out".toList ["RUN_1".toList, "MAIN.dlis".toList]
+    = ("in/RUN_1/MAIN.dlis".toList, "out/RUN_1/MAIN.dlis".toList) := by decide +kernel
+example : (walkPath "in".toList "out".toList ["RUN_1".toList, "MAIN.dlis".toList]).2
+    ≠ (walkPath "in".toList "out".toList ["RUN_2".toList, "MAIN.dlis".toList]).2 := by decide +kernel
 
 end TD.C12
